@@ -71,18 +71,12 @@ def check_normalize(ctx):
     sub = Ctx("C05", m, ctx.tier)
     c05.check(sub)
     ifn = m.func(c05.FN)
-    _, chain, _ = c05.find_chain(ifn)
     iflag = ifn.args.args[3].arg
-    first = {}
-    for fv in (True, False):
-        for bno, (test, body) in enumerate(chain):
-            needs, cond = c05.split_flag(test, iflag)
-            if needs and not fv:
-                continue
-            o = [x for x in sub.obs if x.construct == "%s:branch%d:selects" % (c05.FN, bno + 1)]
-            if o and o[0].ok:
-                first[fv] = "L" if "['L']" in str(o[0].found) else "R"
-            break
+    bad = [o for o in sub.obs if not o.ok]
+    ctx.ob("R06.2", c05.FN + ":step-primitive", not bad and not sub.broken, found=["%s %s" % (o.rule, o.construct) for o in bad][:4] or "all C05 obligations discharged",
+           required="the only step primitive, interchange, is a legal single exchange (rules R05.1-R05.4)", mod=RW, node=ifn,
+           sig="c05:" + ",".join(sorted({o.rule for o in bad})))
+    first = getattr(sub, "first_cfg", {})
     ctx.ob("R06.1", q + ":interchange-first-branch", first == {True: "L", False: "R"}, found=first,
            required="interchange tries the left exchange first iff left=True", mod=RW, node=ifn, sig="first-branch")
     for fv in (True, False):
@@ -283,7 +277,7 @@ def check(ctx):
     check_normal_form(ctx)
     check_foliate(ctx)
     ctx.floor("R06.1", 4)
-    ctx.floor("R06.2", 9)
+    ctx.floor("R06.2", 10)
     ctx.floor("R06.3", 6)
     ctx.floor("R06.4", 5)
     ctx.not_decided += ["termination, idempotence and canonicity themselves (Delpeuch-Vicary theorem, given C05 and R06.1-3)", "optimality of foliate"]
